@@ -8,6 +8,8 @@ from vmon.gen import atomsgen, patterns, planted, replcase
 from vmon.oracle import atomsmodel as AM
 from vmon.oracle import lmpread
 
+from vmon.oracle.util import clone
+
 PROPERTY = "C06"
 RULE = ("Reference-model monitor. Structures with planted occurrences carry pre-existing typed terms inside, outside and "
         "across the matched groups, coefficient tables present or absent per kind, a pair table or none; replacement "
@@ -254,7 +256,7 @@ def run_case(case, ctx):
             t2 = {kd: (len(getattr(out, "%s_type_coeffs" % kd)) > 0 if len(getattr(out, "%s_types" % kd)) > 0 else (True if len(getattr(out, "%s_type_coeffs" % kd)) > 0 else bool(rng.integers(2))))
                   for kd in atomsgen.KNAMES}
             add_terms(rng, R2, len(R2), [], "Q", t2, max_each=3)
-            out1 = out.copy()
+            out1 = clone(out)
             # make ids unique again: the copies inserted in step 1 share charges; give every atom of the intermediate structure its own id
             out1.charges = np.array([5000.0 + i / 64.0 for i in range(len(out1))])
             out2, nrep2 = one_step(ctx, st, out1, pat2, rep2, R2, 2, case["s"] + 1, 2 * atol, False, w, "both" if len(out.pair_coeffs) else "neither", label="second replacement: ")
@@ -291,7 +293,7 @@ def example3(ctx, st):
         out = example_step(ctx, st, obsS, P, R, pat, rep, step, pf, rf)
         if out is None:
             return
-        cur = out.copy()
+        cur = clone(out)
         cur.charges = np.array([5000.0 * step + i / 64.0 for i in range(len(cur))])
     st.count("example3_completed")
     ctx.nontrivial(["example3"])
